@@ -70,6 +70,18 @@ class Parsers:
         self.fn = fn
         self.sub = {}    # variable -> {"names": [...], "rows": [Row], "func": expr|None, "node": call}
         self.main_rows = []
+        # the parser may be built in the entry point itself or in helper(s) it calls: every package function that
+        # creates sub-parsers is a builder (variables are local to their builder)
+        builders = [f for f in ctx.prog.functions.values()
+                    if any(isinstance(n, ast.Call) and isinstance(n.func, ast.Attribute) and n.func.attr == "add_parser" for n in own_nodes(f.node))]
+        self.builders = builders
+        for b in builders:
+            self._scan(b)
+        for v in self.sub.values():
+            v["rows"].sort(key=lambda r: r.call.lineno)
+
+    def _scan(self, fn):
+        key = (lambda var: var) if fn is self.fn or len(self.builders) == 1 else (lambda var: "%s.%s" % (fn.qual, var))
         for n in own_nodes(fn.node):
             if isinstance(n, ast.Assign) and len(n.targets) == 1 and isinstance(n.targets[0], ast.Name) and isinstance(n.value, ast.Call) \
                     and isinstance(n.value.func, ast.Attribute) and n.value.func.attr == "add_parser":
@@ -80,10 +92,10 @@ class Parsers:
                         v = _const(kw.value, [])
                         if isinstance(v, (list, tuple)):
                             names += list(v)
-                self.sub[n.targets[0].id] = {"names": names, "rows": [], "func": None, "node": call}
+                self.sub[key(n.targets[0].id)] = {"names": names, "rows": [], "func": None, "node": call, "builder": fn}
         for n in own_nodes(fn.node):
             if isinstance(n, ast.Call) and isinstance(n.func, ast.Attribute) and isinstance(n.func.value, ast.Name):
-                var = n.func.value.id
+                var = key(n.func.value.id)
                 if n.func.attr == "add_argument":
                     if var in self.sub:
                         self.sub[var]["rows"].append(Row(n))
@@ -93,8 +105,6 @@ class Parsers:
                     for kw in n.keywords:
                         if kw.arg == "func":
                             self.sub[var]["func"] = kw.value
-        for v in self.sub.values():
-            v["rows"].sort(key=lambda r: r.call.lineno)
 
     def by_command(self, name):
         for var, p in self.sub.items():
